@@ -30,4 +30,8 @@ pub trait Control: Send {
     fn pacing_rate(&self) -> Option<usize>;
 
     fn remove_from_bytes_in_flight(&mut self, packets: &mut dyn Iterator<Item = &SentPacket>);
+
+    /// Verification hook (read-only): `(cwnd, ssthresh, bytes_in_flight, recovery_start)`.
+    #[cfg(genmeta_gm_quic_verif)]
+    fn verif_state(&self) -> (u64, u64, u64, Option<Instant>);
 }
